@@ -181,7 +181,7 @@ def gen_cfg(rng: common.Rng, kind: str | None = None) -> dict[str, Any]:
         "b": b,
         "q": q,
         "sparse": sparse,
-        "hash": "coarse" if kind in FULL and rng.chance(0.3) else "real",
+        "hash": "coarse" if kind in FULL and rng.chance(0.5 if sym else 0.3) else "real",
         "sym": sym,
     }
 
@@ -404,11 +404,22 @@ def gen_scenario(rng: common.Rng, cfg: dict[str, Any]) -> list[list[Any]]:
         return [c if j == k else Fraction(0) for j in range(size)]
 
     kind = rng.pick(["alias-in", "alias-in", "alias-out", "alias-out", "tol-chain", "tol-chain", "jac-first", "reopen", "many"])
+    if cfg.get("sym") and max(sizes.values()) > 1 and rng.chance(0.6):
+        kind = "sizes"
     if kind == "tol-chain" and tol == 0:
         kind = "alias-in"
     if kind in ("reopen", "many") and cfg["kind"] != "hdf":
         kind = "alias-out"
-    if kind == "alias-in":
+    if kind == "sizes":
+        # the same input name with arrays of different sizes whose values broadcast to each other
+        # (c, c) / (c); c is such that the coarse hash collides as well
+        big = rng.pick([n for n in names if sizes[n] > 1])
+        c = rng.pick([Fraction(0), Fraction(3, 2), Fraction(3)])
+        long_, short = {big: [c] * sizes[big]}, {big: [c]}
+        seq = rng.pick([[long_, short, long_], [short, long_, short], [long_, short], [short, long_]])
+        for x in seq:
+            call(fresh_args(x, omit_defaults=False), rng.pick(["exec", "exec", "lin-all"]))
+    elif kind == "alias-in":
         args = fresh_args(omit_defaults=False)
         call(args)
         if rng.chance(0.5):
